@@ -884,6 +884,14 @@ void Parser::ParserImpl::loadUnit(const UnitsPtr &units, const XmlNodePtr &node)
             unitsAttributePresent = true;
         } else if (attribute->isType("prefix")) {
             prefix = attribute->value();
+            if (prefix.empty()) {
+                // An empty value cannot be told from an absent attribute later, so it does need to be reported now.
+                auto issue = Issue::IssueImpl::create();
+                issue->mPimpl->setDescription("Unit referencing '" + node->attribute("units") + "' in units '" + units->name() + "' has an empty prefix, which is neither an SI prefix nor an integer.");
+                issue->mPimpl->mItem->mPimpl->setUnits(units);
+                issue->mPimpl->setReferenceRule(Issue::ReferenceRule::UNIT_ATTRIBUTE_PREFIX_VALUE);
+                addIssue(issue);
+            }
         } else if (attribute->isType("exponent")) {
             if (isCellMLReal(attribute->value())) {
                 if (!convertToDouble(attribute->value(), exponent)) {
@@ -996,6 +1004,14 @@ void Parser::ParserImpl::loadVariable(const VariablePtr &variable, const XmlNode
             variable->setInterfaceType(attribute->value());
         } else if (attribute->isType("initial_value")) {
             variable->setInitialValue(attribute->value());
+            if (attribute->value().empty()) {
+                // An empty value cannot be told from an absent attribute later, so it does need to be reported now.
+                auto issue = Issue::IssueImpl::create();
+                issue->mPimpl->setDescription("Variable '" + node->attribute("name") + "' has an empty initial value, which is neither a real number string nor a variable reference.");
+                issue->mPimpl->mItem->mPimpl->setVariable(variable);
+                issue->mPimpl->setReferenceRule(Issue::ReferenceRule::VARIABLE_INITIAL_VALUE_VALUE);
+                addIssue(issue);
+            }
         } else if (mParsing1XVersion && attribute->isType("public_interface")) {
             // Only "in" and "out" expose the variable; "none" is the CellML 1.x default and sets nothing.
             const std::string interfaceValue = attribute->value();
